@@ -37,9 +37,11 @@ theorem C14_numeric_only (f : Fn) (cs : List Val) (h : NoErr cs) :
 /-- **ignoring = removing**: deleting every text, logical and blank cell changes no aggregate (errors present or not) -/
 theorem C14_ignore_remove (f : Fn) (cs : List Val) :
     agg f (cs.filter fun v => !ignorable v) = agg f cs := by
-  apply agg_congr <;> induction cs with
-  | nil => rfl
-  | cons v cs ih => cases v <;> simp_all [firstErr_cons, nums_cons, ignorable]
+  apply agg_congr
+  · apply firstErr_filter
+    intro v hv; cases v <;> simp_all [ignorable]
+  · apply nums_filter
+    intro v hv; cases v <;> simp_all [ignorable, Val.isNum]
 
 private theorem replace_aux (xs ys : List Val) (hl : xs.length = ys.length)
     (h : ∀ p ∈ xs.zip ys, p.1 = p.2 ∨ (ignorable p.1 = true ∧ ignorable p.2 = true)) :
@@ -56,8 +58,11 @@ private theorem replace_aux (xs ys : List Val) (hl : xs.length = ys.length)
       obtain ⟨h1, h2⟩ := ih ys (by simpa using hl) (fun p hp => h p (by simp [hp]))
       rw [firstErr_cons, firstErr_cons, nums_cons, nums_cons]
       rcases hxy with hxy | ⟨hx, hy⟩
-      · simp only [] at hxy; subst hxy; cases x <;> simp [h1, h2]
-      · cases x <;> cases y <;> simp_all [ignorable]
+      · simp only [] at hxy; subst hxy; simp [h1, h2]
+      · obtain ⟨hx1, hx2⟩ := ignorable_spec hx
+        obtain ⟨hy1, hy2⟩ := ignorable_spec hy
+        simp only [] at hx1 hx2 hy1 hy2
+        simp [hx1, hx2, hy1, hy2, h1, h2]
 
 /-- **ignoring = replacing**: replacing ignorable cells by arbitrary other ignorable cells (numeric text by a
     logical, a blank by text, …) changes no aggregate -/
@@ -73,20 +78,30 @@ example : agg .count [.num 1, .str "12".toList, .bool true, .blank] = .num 1 := 
 /-! ## "return the first error value present" -/
 
 /-- **first error**: SUM, AVERAGE, MIN and MAX return the first error cell (row-major), whatever else the range holds -/
-theorem C14_first_error (f : Fn) (hf : f ≠ .count) (pre post : List Val) (e : Err) (h : NoErr pre) :
-    agg f (pre ++ Val.err e :: post) = .err e := by
-  rw [agg_eq_core, firstErr_pre pre post e h]
+theorem C14_first_error (f : Fn) (hf : f ≠ .count) (pre post : List Val) (v : Val) (hv : isErrCell v = true)
+    (h : NoErr pre) :
+    agg f (pre ++ v :: post) = v := by
+  rw [agg_eq_core, firstErr_pre pre post v hv h]
   cases f <;> simp_all
+
+/-- the seven error values are error cells, and they are live `ERROR_CODES` (so is the text `#GETTING_DATA`); text
+    that merely looks like an error (`#TODO`, `#REF` without the bang, `#N/A ` with a space, `#n/a`, `#EMPTY!`), like
+    a number or like a logical is ignorable text -/
+theorem C14_error_cells :
+    (∀ e : Err, isErrCell (.err e) = true ∧ e.text ∈ Gen.aggErrorCodes) ∧
+    isErrCell (.str "#GETTING_DATA".toList) = true ∧
+    (∀ s ∈ ["#TODO", "#12", "#REF", "#N/A ", "#n/a", "#VALUE", "#DIV/0", "# NULL!", "#EMPTY!", "#SPILL!", "#CALC!",
+            "1_0", " 3 ", "1e3", "inf", "12", "TRUE", "true", ""],
+      ignorable (.str (String.toList s)) = true) := by
+  refine ⟨fun e => ⟨rfl, by cases e <;> decide⟩, by decide, by decide⟩
 
 /-- COUNT (Excel and pycel) does not return errors: error cells are just not numeric -/
 theorem C14_count_ignores_errors (cs : List Val) :
-    count cs = count (cs.filter fun v => !v.isErr) ∧ ∃ k : Nat, count cs = .num (natRat k) := by
+    count cs = count (cs.filter fun v => !isErrCell v) ∧ ∃ k : Nat, count cs = .num (natRat k) := by
   refine ⟨?_, _, rfl⟩
   simp only [count]
-  congr 3
-  induction cs with
-  | nil => rfl
-  | cons v cs ih => cases v <;> simp_all [nums_cons, Val.isErr]
+  rw [nums_filter]
+  intro v hv; cases v <;> simp_all [Val.isNum, isErrCell]
 
 /-! ## "invariant under permuting or reshaping the cells" -/
 
@@ -119,18 +134,30 @@ theorem C14_reshape (f : Fn) :
 
 /-- addition of two aggregate results: numbers add, the left-most error wins -/
 def addV : Val → Val → Val
-  | .err e, _ => .err e
-  | .num _, .err e => .err e
   | .num a, .num b => .num (a + b)
-  | a, _ => a
+  | .num _, e => e
+  | e, _ => e
 
-theorem sum_isNumOrErr (cs : List Val) : (∃ q, sum_ cs = .num q) ∨ (∃ e, sum_ cs = .err e) := by
-  simp only [sum_, numerics]; cases firstErr cs <;> simp
+theorem addV_err (v w : Val) (h : isErrCell v = true) : addV v w = v := by
+  cases v <;> simp_all [addV, isErrCell]
+
+theorem addV_num_err (a : Rat) (w : Val) (h : isErrCell w = true) : addV (.num a) w = w := by
+  cases w <;> simp_all [addV, isErrCell]
+
+theorem sum_isNumOrErr (cs : List Val) : (∃ q, sum_ cs = .num q) ∨ isErrCell (sum_ cs) = true := by
+  simp only [sum_, numerics]
+  cases h : firstErr cs with
+  | none => simp
+  | some v => simp [(firstErr_mem h).2]
 
 /-- **additive (consecutive parts)**: the SUM of a range cut in two (first part, rest) is the sum of the two SUMs -/
 theorem C14_sum_append (xs ys : List Val) : sum_ (xs ++ ys) = addV (sum_ xs) (sum_ ys) := by
   simp only [sum_, numerics, firstErr_append, nums_append]
-  cases firstErr xs <;> cases firstErr ys <;> simp [addV, rsum_append]
+  cases hx : firstErr xs <;> cases hy : firstErr ys <;> simp only [Option.or_none, Option.or_some]
+  · simp [addV, rsum_append]
+  · exact (addV_num_err _ _ (firstErr_mem hy).2).symm
+  · exact (addV_err _ _ (firstErr_mem hx).2).symm
+  · exact (addV_err _ _ (firstErr_mem hx).2).symm
 
 /-- the same for a rectangle cut between two rows -/
 theorem C14_sum_rows (a b : Arr) : aggA .sum (a ++ b) = addV (aggA .sum a) (aggA .sum b) := by
@@ -159,14 +186,17 @@ theorem C14_count_append (xs ys : List Val) : count (xs ++ ys) = addV (count xs)
 
 /-- quotient of two aggregate results -/
 def divV : Val → Val → Val
-  | .err e, _ => .err e
   | .num s, .num n => if n = 0 then .err .div0 else .num (s / n)
-  | a, _ => a
+  | e, _ => e
 
 /-- **average** -/
 theorem C14_average (cs : List Val) : average cs = divV (sum_ cs) (count cs) := by
   simp only [average, sum_, count, numerics]
-  cases firstErr cs <;> simp [divV, natRat_eq_zero]
+  cases h : firstErr cs with
+  | none => simp [divV, natRat_eq_zero]
+  | some v =>
+    have := (isErrCell_not_num (firstErr_mem h).2).2
+    cases v <;> simp_all [divV]
 
 /-- spelled out: no error and nothing numeric gives #DIV/0! -/
 theorem C14_average_empty (cs : List Val) (h : NoErr cs) (hn : ∀ q, Val.num q ∉ cs) : average cs = .err .div0 := by
@@ -308,7 +338,17 @@ def fill0 (v : Val) : Val := if ignorable v then .num 0 else v
     is overwritten with 0 -/
 theorem C14_sumproduct_zero_fill (as : List Arr) :
     sumproduct (as.map Arg.arr) = sumproduct ((as.map fun a => a.map fun row => row.map fill0).map Arg.arr) := by
-  have hn0 : ∀ v, n0 (fill0 v) = n0 v := by intro v; cases v <;> simp [fill0, ignorable, n0]
+  have hn0 : ∀ v, n0 (fill0 v) = n0 v := by
+    intro v; unfold fill0; split
+    · rename_i h; cases v <;> simp_all [ignorable, n0]
+    · rfl
+  have hfill : ∀ v, isErrCell (fill0 v) = isErrCell v ∧ (isErrCell v = true → fill0 v = v) := by
+    intro v; unfold fill0; split
+    · rename_i h
+      have := (ignorable_spec h).1
+      refine ⟨by rw [this]; rfl, fun hv => ?_⟩
+      rw [this] at hv; exact absurd hv (by simp)
+    · exact ⟨rfl, fun _ => rfl⟩
   have hflat : ∀ a : Arr, (a.map fun row => row.map fill0).flatten = a.flatten.map fill0 := by
     intro a; induction a with
     | nil => rfl
@@ -316,7 +356,11 @@ theorem C14_sumproduct_zero_fill (as : List Arr) :
   have hfe : ∀ cs : List Val, firstErr (cs.map fill0) = firstErr cs := by
     intro cs; induction cs with
     | nil => rfl
-    | cons v cs ih => rw [List.map_cons, firstErr_cons, firstErr_cons]; cases v <;> simp [fill0, ignorable, ih]
+    | cons v cs ih =>
+      rw [List.map_cons, firstErr_cons, firstErr_cons, (hfill v).1]
+      by_cases hv : isErrCell v = true
+      · simp [hv, (hfill v).2 hv]
+      · simp [hv, ih]
   have hshape : ∀ a : Arr, shape (a.map fun row => row.map fill0) = shape a := by
     intro a; cases a with
     | nil => rfl
@@ -348,8 +392,8 @@ theorem C14_sumproduct_zero_fill (as : List Arr) :
 
 /-- outside the statement, as the code does it: an error cell anywhere (arguments left to right, row-major) is
     returned, before shapes are looked at -/
-theorem C14_sumproduct_error (args : List Arg) (e : Err) (h : firstErr (cellsOf args) = some e) :
-    sumproduct args = .err e := by
+theorem C14_sumproduct_error (args : List Arg) (v : Val) (h : firstErr (cellsOf args) = some v) :
+    sumproduct args = v := by
   simp [sumproduct, h]
 
 /-- outside the statement, as the code does it: ranges of different shapes (and no error cell) give #VALUE! -/
@@ -379,16 +423,28 @@ def exA : Arr := [[.num 1, .str "2".toList, .bool true], [.blank, .str "abc".toL
 /-- the same cells, permuted and reshaped to 3×2 -/
 def exB : Arr := [[.num (5/2), .blank], [.bool true, .num 1], [.str "abc".toList, .str "2".toList]]
 
-example : NoErr exA.flatten := by simp [NoErr, exA]
-example : OneErr exA.flatten := by intro e₁ e₂ h; simp [exA] at h
+theorem oneErr_of_noErr {cs : List Val} (h : NoErr cs) : OneErr cs := by
+  intro v₁ _ h1 _ e1 _
+  rw [h v₁ h1] at e1; exact absurd e1 (by simp)
+
+example : NoErr exA.flatten := by unfold NoErr; decide
+example : OneErr exA.flatten := oneErr_of_noErr (by unfold NoErr; decide)
 example : exA.flatten.Perm exB.flatten := by decide +kernel
 example : aggA .sum exA = .num (7/2) ∧ aggA .count exA = .num 2 ∧ aggA .average exA = .num (7/4) ∧
     aggA .min exA = .num 1 ∧ aggA .max exA = .num (5/2) := by decide +kernel
 example : aggA .sum exB = .num (7/2) := by decide +kernel
 /-- one error value, occurring twice: `OneErr` holds and the permutation theorem applies -/
 example : OneErr [Val.num 1, .err .na, .str [], .err .na] := by
-  intro e₁ e₂ h1 h2
-  simp at h1 h2; rw [h1, h2]
+  intro v₁ v₂ h1 h2 e1 e2
+  simp only [List.mem_cons, List.not_mem_nil, or_false] at h1 h2
+  rcases h1 with rfl | rfl | rfl | rfl <;> rcases h2 with rfl | rfl | rfl | rfl <;>
+    first | rfl | exact absurd e1 (by decide) | exact absurd e2 (by decide)
+/-- a hostile range: error look-alikes and numeric/logical look-alikes are text, the genuine error after them wins -/
+example : agg .sum [.str "#TODO".toList, .num 2, .str "#N/A ".toList, .str "1e3".toList, .str "TRUE".toList,
+    .err .ref, .err .na] = .err .ref := by decide +kernel
+example : agg .sum [.str "#TODO".toList, .num 2, .str "#n/a".toList, .str "#EMPTY!".toList] = .num 2 ∧
+    agg .count [.str "#TODO".toList, .num 2, .str "#n/a".toList, .str "#EMPTY!".toList] = .num 1 := by decide +kernel
+example : agg .max [.num 2, .str "#GETTING_DATA".toList, .err .na] = .str "#GETTING_DATA".toList := by decide +kernel
 example : agg .max [Val.num 1, .err .na, .str [], .err .na] = .err .na := by decide +kernel
 example : Rect 2 3 exA := ⟨rfl, by simp [exA]⟩
 example : sumproduct [.arr exA, .arr exA] = .num (29/4) := by decide +kernel
